@@ -100,7 +100,10 @@ class Impl:
         if op == 'child':
             return self.spec(s[1]).child(int(s[2]))
         if op == 'onelevel':
-            return self.spec(s[1]).one_level()
+            r = self.spec(s[1]).one_level()
+            if r is None:
+                raise UserExc(999)      # `None` for a leaf treespec
+            return r
         if op == 'compose':
             return self.spec(s[1]).compose(self.spec(s[2]))
         if op == 'bcast':
